@@ -41,7 +41,7 @@ def run_op(acc, c, names, inst, kind, *a, **k):
 
 DAGS = ["linear", "diamond", "setup"]
 MENU = ["call(a1,a2)", "call(a5)", "call(a1,BAD)", "call()", "e=executor()", "e=executor(T=[n1])", "e(a1,a2)", "e(a1,BAD)",
-        "compose+call", "config same", "config changed", "deepcopy", "setup()", "setup(T=[last])"]
+        "compose+call", "config same", "config changed", "deepcopy", "setup()", "setup(T=[last])", "executor(T=[n1],X=[last]) created"]
 
 
 def cases(tier: str):
@@ -210,6 +210,13 @@ def run_hist(acc, c):
             if original is None:
                 original = inst
             inst = inst.clone()
+        elif k == 14:
+            # an executor with a target AND an exclusion is only CREATED (never run): the DAG object is not affected by that
+            try:
+                inst.d.executor(target_nodes=[ids[1]], exclude_nodes=[ids[-1]])
+            except Exception as e_:  # noqa: BLE001
+                acc.violation(V("executor_refused", f"history {names}: executor(target_nodes=[{ids[1]}], exclude_nodes=[{ids[-1]}]) raised {e_!r}"),
+                              dict(c, history=names), (), None, p.source())
         elif k in (12, 13):
             # setup() / setup(target_nodes=[last node]): runs the needed setup nodes only - never a non-setup node, whatever its depth
             run_op(acc, c, names, inst, "setup", None if k == 12 else {"T": [len(ids) - 1]}, ())
